@@ -174,6 +174,7 @@ def replay_obj(p, fm, ci, txt):
     same = [f for f, g in p["SameAs"].items() if g == fm]
     return {"program": p["Name"], "origin": p["Origin"], "program_seed": p["Seed"], "mode": FORMNAME[fm],
             "also_modes": [FORMNAME[f] for f in same], **case_desc(p, ci),
+            "compiled_program_showed": (p.get("CaseExp") or [""] * (ci + 1))[ci][:3000] if ci >= 0 else "",
             "model_result": txt[:3000], "source": p["Src"],
             "rerun": "VERIF_SEED=%d ./check C01 --tier %s   (program %s)" % (ck.seed, ck.tier, p["Name"])}
 
